@@ -871,10 +871,11 @@ def parse_host(host):
         host = host[1:-1]
         try:
             inet_pton(socket.AF_INET6, host)
-        except OSError as se:
-            raise URLParseError(f'invalid IPv6 host: {host!r} ({se!r})')
         except UnicodeEncodeError:
             pass  # TODO: this can't be a real host right?
+        except (OSError, ValueError) as se:
+            # ValueError: embedded null character
+            raise URLParseError(f'invalid IPv6 host: {host!r} ({se!r})')
         else:
             family = socket.AF_INET6
             return family, host
@@ -882,6 +883,9 @@ def parse_host(host):
         inet_pton(socket.AF_INET, host)
     except (OSError, UnicodeEncodeError):
         family = None  # not an IP
+    except ValueError as ve:
+        # embedded null character
+        raise URLParseError(f'invalid host: {host!r} ({ve!r})')
     else:
         family = socket.AF_INET
     return family, host
